@@ -82,6 +82,8 @@ pub const ADV: &[PoolName] = &[
     pn("a1", "digit"),
     pn("a_1", "digit"),
     pn("A1", "digit"),
+    pn("x2Y", "digit"),
+    pn("utf8String", "digit"),
     pn("é", "non-ascii"),
     pn("Ж", "non-ascii"),
     pn("ж", "non-ascii"),
